@@ -2,6 +2,6 @@
 # re-runs every kept seeded change against the current checks (quick tier); one summary line each -> out/reeval_seeds.txt
 cd /verif; : > out/reeval_seeds.txt
 for d in seeded/*/; do n=$(basename $d); pid=$(echo $n | cut -d- -f1)
-  r=$(tools/eval_seed.py /verif/seeded/$n $pid --skip-pytest 2>&1 | grep -E "CONFIRMED|NOT CONFIRMED|DOES NOT APPLY" | tail -1)
+  r=$(tools/eval_seed.py /verif/seeded/$n $pid --skip-pytest 2>&1 | grep -E "CONFIRMED|NOT CONFIRMED|DOES NOT APPLY|OBSOLETE" | tail -1)
   echo "$n $r" | tee -a out/reeval_seeds.txt
 done
